@@ -495,24 +495,24 @@ fn adjacent_impl(f: SigNode, xs: Value, n: usize, env: &mut Uiua) -> UiuaResult 
             _ => return generic_adjacent(f, Value::Num(nums), n, env),
         }?),
         (Some((prim, flipped)), Value::Byte(bytes)) => env.push::<Value>(match prim {
-            Primitive::Add => fast_adjacent(bytes.convert(), n, env, add::num_num)?.into(),
+            Primitive::Add => fast_adjacent(bytes.convert_for_arithmetic(), n, env, add::num_num)?.into(),
             Primitive::Sub if flipped => {
-                fast_adjacent(bytes.convert(), n, env, flip(sub::num_num))?.into()
+                fast_adjacent(bytes.convert_for_arithmetic(), n, env, flip(sub::num_num))?.into()
             }
-            Primitive::Sub => fast_adjacent(bytes.convert(), n, env, sub::num_num)?.into(),
-            Primitive::Mul => fast_adjacent(bytes.convert(), n, env, mul::num_num)?.into(),
+            Primitive::Sub => fast_adjacent(bytes.convert_for_arithmetic(), n, env, sub::num_num)?.into(),
+            Primitive::Mul => fast_adjacent(bytes.convert_for_arithmetic(), n, env, mul::num_num)?.into(),
             Primitive::Div if flipped => {
-                fast_adjacent(bytes.convert(), n, env, flip(div::num_num))?.into()
+                fast_adjacent(bytes.convert_for_arithmetic(), n, env, flip(div::num_num))?.into()
             }
-            Primitive::Div => fast_adjacent(bytes.convert(), n, env, div::num_num)?.into(),
+            Primitive::Div => fast_adjacent(bytes.convert_for_arithmetic(), n, env, div::num_num)?.into(),
             Primitive::Modulo if flipped => {
-                fast_adjacent(bytes.convert(), n, env, flip(modulo::num_num))?.into()
+                fast_adjacent(bytes.convert_for_arithmetic(), n, env, flip(modulo::num_num))?.into()
             }
-            Primitive::Modulo => fast_adjacent(bytes.convert(), n, env, modulo::num_num)?.into(),
+            Primitive::Modulo => fast_adjacent(bytes.convert_for_arithmetic(), n, env, modulo::num_num)?.into(),
             Primitive::Atan if flipped => {
-                fast_adjacent(bytes.convert(), n, env, flip(atan2::num_num))?.into()
+                fast_adjacent(bytes.convert_for_arithmetic(), n, env, flip(atan2::num_num))?.into()
             }
-            Primitive::Atan => fast_adjacent(bytes.convert(), n, env, atan2::num_num)?.into(),
+            Primitive::Atan => fast_adjacent(bytes.convert_for_arithmetic(), n, env, atan2::num_num)?.into(),
             Primitive::Max => fast_adjacent(bytes, n, env, max::byte_byte)?.into(),
             Primitive::Min => fast_adjacent(bytes, n, env, min::byte_byte)?.into(),
             Primitive::Eq => fast_adjacent(bytes, n, env, is_eq::same_type)?.into(),
